@@ -141,17 +141,17 @@ type item struct {
 }
 
 type kase struct {
-	kind            string
-	n               int
-	seed            uint64
-	byz             map[int]bool
+	kind             string
+	n                int
+	seed             uint64
+	byz              map[int]bool
 	last, rid, seed2 *big.Int
-	doc             []byte
-	sel             string
-	parsed          string
-	ids             [][]byte
-	alts            [][]byte
-	sched           []item
+	doc              []byte
+	sel              string
+	parsed           string
+	ids              [][]byte
+	alts             [][]byte
+	sched            []item
 }
 
 func parseItem(s string) item {
@@ -736,7 +736,21 @@ func risky(k *kase) bool {
 // 30 s and leaks goroutines): after three of them the remaining cases are not run.
 var stuckCases int32
 
+func blsSignRaw(g *group, c []byte) ([]byte, error) { return bls.Sign(suite, g.secret, c) }
+
 func exec(line string) (res h.Result) {
+	if strings.HasPrefix(line, "ev ") {
+		res.Nontrivial = true
+		if atomic.LoadInt32(&stuckCases) >= 3 {
+			res.Impl, res.Class = "not-run", "not-run"
+			return
+		}
+		res.Impl, res.Oracle, res.Class = runEv(parseEv(line))
+		if strings.HasPrefix(res.Impl, "stuck") {
+			atomic.AddInt32(&stuckCases, 1)
+		}
+		return
+	}
 	k := parse(line)
 	res.Nontrivial = true
 	if atomic.LoadInt32(&stuckCases) >= 3 {
